@@ -185,9 +185,8 @@ Spec == Init /\ [][Next]_vars
 (* ------------------------------------------------------------------ properties *)
 Inv_Recovered == ok
 Inv_MemIsBase == (up /\ cur = Nop) => mem = base            \* the running process agrees with the baseline
-Inv_Files == /\ (tmp.st = "partial" => TRUE)
-             /\ (\A i \in 1..Len(log) : log[i].torn # "ok" =>
-                    (Dev_TornTailNotTruncated \/ (i = Len(log) /\ ~up)))   \* a torn record is only ever the tail of a dead store
+Inv_Files == \A i \in 1..Len(log) : log[i].torn # "ok" =>
+                 (Dev_TornTailNotTruncated \/ (i = Len(log) /\ ~up))        \* a torn record is only ever the tail of a dead store
 
 (* ------------------------------------------------------------------ generator: one driver case line per history *)
 KV(ks, vs, i) == ToString(ks[i]) \o ":" \o ToString(vs[i])
